@@ -22,6 +22,7 @@
 #include <poll.h>
 #include <sys/uio.h>
 #include <sys/ioctl.h>
+#include <sys/socket.h>
 
 #include "queue.h"
 #include "message.h"
@@ -67,6 +68,7 @@ static struct {
 	int delivered;         /* delimiters written to B */
 	size_t cuts_in_frame; int split_frames;
 	size_t allowance;      /* bytes written to B while a complete frame waits */
+	size_t peak_unread;    /* most bytes seen unread in B while it waits */
 	/* consumer */
 	int received;
 	int futile;
@@ -113,21 +115,21 @@ static int wrapped(const MPT_STRUCT(queue) *q) { return q->max && q->len && (q->
 static void inv_send(const char *after)
 {
 	const MPT_STRUCT(encode_queue) *e = &C.S._wd;
-	vf_count("monitor:enc-invariant", 1);
+	vf_count("monitor:stream-enc-invariant", 1);
 	VF_CHECK(e->data.len <= e->data.max, "model:stream:wd-len-exceeds-max", "after %s: %s", after, sdesc());
 	VF_CHECK(e->_state.done + e->_state.scratch == e->data.len, "model:stream:wd-done-scratch-mismatch",
 	         "after %s: done + scratch != queue length: %s", after, sdesc());
-	if (wrapped(&e->data)) { C.enc_wrapped = 1; vf_count("state:enc-wrapped", 1); }
+	if (wrapped(&e->data)) { C.enc_wrapped = 1; vf_count("state:stream-enc-wrapped", 1); }
 }
 static void inv_recv(const char *after)
 {
 	const MPT_STRUCT(decode_queue) *d = &C.R._rd;
 	const MPT_STRUCT(decode_state) *s = &d->_state;
-	vf_count("monitor:dec-invariant", 1);
+	vf_count("monitor:stream-dec-invariant", 1);
 	VF_CHECK(d->data.len <= d->data.max, "model:stream:rd-len-exceeds-max", "after %s: %s", after, rdesc());
 	VF_CHECK(s->curr <= d->data.len && s->data.pos <= s->curr && s->data.len <= s->curr - s->data.pos, "model:stream:rd-offsets-outside",
 	         "after %s: %s", after, rdesc());
-	if (wrapped(&d->data)) { C.dec_wrapped = 1; vf_count("state:dec-wrapped", 1); }
+	if (wrapped(&d->data)) { C.dec_wrapped = 1; vf_count("state:stream-dec-wrapped", 1); }
 }
 
 /* ------------------------------------------------------------------ messages */
@@ -218,12 +220,12 @@ static void do_push(vf_rng *r)
 	if (!n) {
 		VF_CHECK(!C.S._wd._state.scratch, "model:stream_push:terminate-left-open-block", "terminate returned %zd but %s", ret, sdesc());
 		VF_CHECK(!(mpt_stream_flags(&C.S._info) & MPT_STREAMFLAG(MesgActive)), "model:stream_push:terminate-left-active", "flags %#x", mpt_stream_flags(&C.S._info));
-		vf_count("push:terminate", 1);
+		vf_count("push:stream-terminate", 1);
 		C.terminated++; C.cur++; C.curpos = 0;
 		return;
 	}
 	VF_CHECK(ret > 0, "model:stream_push:no-progress", "push(%zu) = 0; %s", n, sdesc());
-	if ((size_t) ret < n) vf_count("push:short", 1);
+	if ((size_t) ret < n) vf_count("push:stream-short", 1);
 	C.curpos += ret;
 }
 static void do_flush(void)
@@ -339,10 +341,10 @@ static int on_message(void *arg, const MPT_STRUCT(message) *msg)
 		VF_CHECK(p >= rb && p + l <= rb + C.R._rd.data.max, "model:stream_dispatch:outside-ring", "part %zu: %zd..+%zu outside ring of %zu", i + 1, (ssize_t) (p - rb), l, C.R._rd.data.max);
 		memcpy(got + n, p, l); n += l;
 		C.msg_split = 1;
-		vf_count("state:message-split", 1);
+		vf_count("state:stream-message-split", 1);
 	}
 	vf_log("  handler: message of %zu bytes (%s)", n, vf_hex(hx1, 60, got, n));
-	vf_count("monitor:message-compare", 1);
+	vf_count("monitor:stream-message-compare", 1);
 	if (idx >= C.terminated)
 		vf_fail("model:stream_dispatch:phantom-message", "message %d dispatched (%zu bytes: %s) but only %d were terminated by the sender; %s",
 		        idx, n, vf_hex(hx1, sizeof(hx1), got, n), C.terminated, rdesc());
@@ -351,6 +353,7 @@ static int on_message(void *arg, const MPT_STRUCT(message) *msg)
 		C.received++;
 		C.futile = 0;
 		C.allowance = 0;
+		C.peak_unread = 0;
 		return MPT_EVENTFLAG(None);
 	}
 	if (idx > 0 && n == C.msg[idx - 1].n && !memcmp(got, C.msg[idx - 1].d, n) && (n < 4 || C.msg[idx].n != n))
@@ -378,6 +381,7 @@ static void do_receive(vf_rng *r)
 	int ret, waiting = C.delivered > C.received, fast = 1, calls = 0, before = C.received;
 	int timeout = -1;
 
+	if (waiting) { size_t u = (size_t) pipe_b_bytes(); if (u > C.peak_unread) C.peak_unread = u; }
 	/* real poll() when nothing is readable now and then; the fast path is what mpt_stream_input uses */
 	if (vf_chance(r, 1, 4)) { timeout = 0; fast = 0; }
 	vf_at("mpt_stream_poll");
@@ -417,8 +421,10 @@ static void do_receive(vf_rng *r)
 	if (waiting && C.received == before && fast) {
 		size_t flen = C.frame_end[C.received] - frame_start(C.received);
 		C.futile++;
-		vf_count("monitor:progress-check", 1);
-		if ((size_t) C.futile > 2 * flen + 64 + (C.allowance + 8192) / 16)
+		vf_count("monitor:stream-progress-check", 1);
+		/* every round enlarges a full read queue by 64 bytes only and fills it at once from the transport:
+		 * input that is already on its way has to be drained before the decoder gets its space */
+		if ((size_t) C.futile > 2 * flen + 576 + (C.allowance + C.peak_unread) / 16)
 			vf_fail("model:stream:stall", "frame %d (%zu bytes: %s) was written completely to the receiver's pipe, %d poll+dispatch rounds delivered nothing; "
 			        "%d bytes unread in pipe; %s (%s)", C.received, flen, frame_hex(C.received), C.futile, pipe_b_bytes(), rdesc(), framing[C.fr].name);
 	}
@@ -447,10 +453,21 @@ static void run_case(uint64_t idx, vf_rng *r)
 	memset(&C, 0, sizeof(C));
 	C.fr = fr;
 	C.S = sinit; C.R = sinit;
-	if (pipe2(C.a, O_NONBLOCK | O_CLOEXEC) < 0 || pipe2(C.b, O_NONBLOCK | O_CLOEXEC) < 0) vf_inconclusive("pipe2: %s", strerror(errno));
-	/* smallest transport the kernel offers (one page) on the sender side in most cases */
-	if (!vf_chance(r, 1, 4)) (void) fcntl(C.a[1], F_SETPIPE_SZ, 4096);
-	(void) fcntl(C.b[1], F_SETPIPE_SZ, 4096);
+	if (vf_chance(r, 1, 4)) {
+		/* stream sockets: a[1]/b[1] are written, a[0]/b[0] read */
+		int sz = 2048;
+		if (socketpair(AF_UNIX, SOCK_STREAM | SOCK_NONBLOCK | SOCK_CLOEXEC, 0, C.a) < 0
+		    || socketpair(AF_UNIX, SOCK_STREAM | SOCK_NONBLOCK | SOCK_CLOEXEC, 0, C.b) < 0) vf_inconclusive("socketpair: %s", strerror(errno));
+		(void) setsockopt(C.a[1], SOL_SOCKET, SO_SNDBUF, &sz, sizeof(sz));
+		(void) setsockopt(C.b[1], SOL_SOCKET, SO_SNDBUF, &sz, sizeof(sz));
+		vf_count("transport:socketpair", 1);
+	} else {
+		if (pipe2(C.a, O_NONBLOCK | O_CLOEXEC) < 0 || pipe2(C.b, O_NONBLOCK | O_CLOEXEC) < 0) vf_inconclusive("pipe2: %s", strerror(errno));
+		/* smallest transport the kernel offers (one page) on the sender side in most cases */
+		if (!vf_chance(r, 1, 4)) (void) fcntl(C.a[1], F_SETPIPE_SZ, 4096);
+		(void) fcntl(C.b[1], F_SETPIPE_SZ, 4096);
+		vf_count("transport:pipe", 1);
+	}
 
 	C.S._wd._enc = framing[fr].enc;
 	C.R._rd._dec = framing[fr].dec;
@@ -512,22 +529,22 @@ static void run_case(uint64_t idx, vf_rng *r)
 			VF_CHECK(C.cb_calls == cb, "model:stream_dispatch:phantom-message", "handler called after all %d messages were dispatched; %s", C.nmsg, rdesc());
 		}
 	}
-	vf_count("monitor:conservation-at-end", 1);
-	vf_count("messages:delivered", C.received);
+	vf_count("monitor:stream-conservation-at-end", 1);
+	vf_count("messages:stream-delivered", C.received);
 	if (C.received >= 3 && C.split_frames) vf_nontrivial();
-	if (C.enc_wrapped) vf_count("history:enc-wrapped", 1);
-	if (C.dec_wrapped) vf_count("history:dec-wrapped", 1);
-	if (C.msg_split) vf_count("history:message-split", 1);
-	if (C.split_frames) vf_count("history:frame-in-several-segments", 1);
+	if (C.enc_wrapped) vf_count("history:stream-enc-wrapped", 1);
+	if (C.dec_wrapped) vf_count("history:stream-dec-wrapped", 1);
+	if (C.msg_split) vf_count("history:stream-message-split", 1);
+	if (C.split_frames) vf_count("history:stream-frame-in-several-segments", 1);
 	if (C.flush_full) vf_count("history:flush-met-full-transport", 1);
-	vf_max("max:enc-capacity", C.S._wd.data.max);
-	vf_max("max:dec-capacity", C.R._rd.data.max);
+	vf_max("max:stream-enc-capacity", C.S._wd.data.max);
+	vf_max("max:stream-dec-capacity", C.R._rd.data.max);
 	vf_sample("%s %d messages / %zu bytes through two streams on pipes, %zu wire bytes in %lu steps, frames cut: %d, first message %s",
 	          framing[fr].name, C.nmsg, total, C.nwire, C.steps, C.split_frames, vf_hex(hx1, 80, C.msg[0].d, C.msg[0].n));
 	case_free();
 }
 
-uint64_t vf_cases(void) { return vf_thorough ? 40000 : 2400; }
+uint64_t vf_cases(void) { return vf_thorough ? 300000 : 16000; }
 
 void vf_case(uint64_t idx, vf_rng *r)
 {
